@@ -92,6 +92,9 @@ if __name__ == "__main__":
     elif len(sys.argv) > 2 and sys.argv[2] == "--round3":
         for x in (sys.argv[3:] or ["A", "B"]):
             print(json.dumps(verify(pid, x, src="/tmp/wt3/%s/out" % pid, name=pid + "r3")))
+    elif len(sys.argv) > 2 and sys.argv[2] == "--round5":
+        for x in (sys.argv[3:] or ["A", "B"]):
+            print(json.dumps(verify(pid, x, src="/tmp/wt5/%s/out" % pid, name=pid + "r5")))
     elif len(sys.argv) > 2 and sys.argv[2] == "--round4":
         for x in (sys.argv[3:] or ["A", "B"]):
             print(json.dumps(verify(pid, x, src="/tmp/wt4/%s/out" % pid, name=pid + "r4")))
